@@ -1,11 +1,13 @@
 (* property number -> op code -> itree -> itree *)
 From Coq Require Import List Arith NArith Bool.
 From AV Require Import Base.ITree Model.D00 Model.D01.
+From AV Require Import Model.D18.
 Import ListNotations.
 
 Definition dispatch (prop op : nat) (t : itree) : itree :=
   match prop with
   | 0 => d00 op t               (* op 0 = echo / self-test; shared comparators *)
   | 1 => d01 op t
+  | 18 => d18 op t
   | _ => bad_input
   end.
